@@ -68,18 +68,30 @@ def peer_lists(kind):
                    'mac': ['hmac-sha2-256', 'hmac-sha2-512']}[cat]
         elif kind == 'unknowns':
             sel = names[:3] + ['frob-%s@example.org' % cat]
+        elif kind in ('asym-s2c-weak', 'asym-c2s-weak'):
+            sel = {'kex': ['curve25519-sha256'], 'key': ['ssh-ed25519'],
+                   'enc': ['aes256-ctr', 'aes128-cbc', '3des-cbc', 'chacha20-poly1305@openssh.com'],
+                   'mac': ['hmac-sha2-256', 'hmac-sha1-etm@openssh.com', 'hmac-md5']}[cat]
         lists[cat] = list(sel)
     return lists
 
 
-PEER_KINDS = ['all', 'even', 'odd', 'clean', 'gex2048', 'terrapin-hardened', 'unknowns']
+# the two directions of a KEXINIT may differ; the report rates the server-to-client lists
+ASYM_OTHER = {'enc': ['aes256-ctr', 'aes128-gcm@openssh.com'], 'mac': ['hmac-sha2-256', 'hmac-sha2-512']}
+PEER_KINDS = ['all', 'even', 'odd', 'clean', 'gex2048', 'terrapin-hardened', 'unknowns', 'asym-s2c-weak', 'asym-c2s-weak']
 
 
 def make_server(kind, banner):
     l = peer_lists(kind)
     gex = P.GexPolicy([2048] if kind == 'gex2048' else [4096], P.OPENSSH if kind == 'gex2048' else P.STRICT)
+    kw = {}
+    if kind == 'asym-s2c-weak':
+        kw = dict(enc_c2s=ASYM_OTHER['enc'], mac_c2s=ASYM_OTHER['mac'])
+    elif kind == 'asym-c2s-weak':
+        kw = dict(enc_c2s=l['enc'], mac_c2s=l['mac'])
+        l = dict(l, enc=ASYM_OTHER['enc'], mac=ASYM_OTHER['mac'])
     return P.Server(kex=l['kex'], key=l['key'], enc=l['enc'], mac=l['mac'], banner=banner,
-                    host_keys=P.standard_host_keys(l['key'], rsa_bits=2048 if kind == 'gex2048' else 3072), gex=gex), l
+                    host_keys=P.standard_host_keys(l['key'], rsa_bits=2048 if kind == 'gex2048' else 3072), gex=gex, **kw), l
 
 
 def known_in(prod, version, cat, name):
